@@ -35,9 +35,18 @@ let parse line =
     let outs = List.init no (fun _ ->
       match nx () with
       | "E" -> let q = ni () in let a = ni () in let b = ni () in OutE (z_of_int q, z_of_int a, z_of_int b)
+      | "F" -> let q = ni () in let a = ni () in let b = ni () in OutF (z_of_int q, z_of_int a, z_of_int b)
       | "M" -> let a = ni () in let b = ni () in OutM (z_of_int a, z_of_int b)
       | _ -> failwith "output") in
-    { c_R = z_of_int r; c_mod = (md <> 0); c_in = inp; c_outs = outs }) in
+    let peek s = !pos < Array.length t && t.(!pos) = s in
+    let in2, bf =
+      if peek "B" then begin
+        incr pos;
+        let bf = ni () in let p = ni () in let sh = ni () in let ti = ni () in let tri = ni () in
+        (Some (InT (z_of_int p, z_of_int sh, z_of_int ti, z_of_int tri)), bf <> 0)
+      end else (None, false) in
+    if peek "G" then begin incr pos; let n = ni () in for _ = 1 to n do ignore (ni ()) done end;   (* control flows carry no data *)
+    { c_R = z_of_int r; c_mod = (md <> 0); c_in = inp; c_outs = outs; c_in2 = in2; c_bfirst = bf }) in
   let fixed = if !pos < Array.length t && t.(!pos) = "V" then (incr pos; ni () <> 0) else false in
   { p_nranks = z_of_int nranks; p_mb = z_of_int mb; p_esz = z_of_int esz; p_nt = z_of_int nt;
     p_owner = List.map z_of_int owner; p_cls = classes; p_fixed = fixed }
@@ -47,7 +56,10 @@ let observe (p : prog) =
   if int_of_z s.err <> 0 then (if int_of_z s.err = 1 then "CRASH" else Printf.sprintf "<model error %d>" (int_of_z s.err)) else begin
     let ntiles = List.length p.p_owner in
     let evs = List.rev s.evs in
-    let bodies = List.filter_map (function EBody (c, k, r, cp, d, data) -> Some ((int_of_z c, int_of_z k, int_of_z r), int_of_nat cp, d, data) | _ -> None) evs in
+    let bodies = List.filter_map (function
+      | EBody (c, k, r, cp, d, data) -> Some (((int_of_z c, int_of_z k, int_of_z r), 0), int_of_nat cp, d, data)
+      | EBody2 (c, k, r, cp, d, data) -> Some (((int_of_z c, int_of_z k, int_of_z r), 1), int_of_nat cp, d, data)
+      | _ -> None) evs in
     let bodies = List.sort compare bodies in
     let names = Hashtbl.create 16 in
     let nfresh = ref 0 in
@@ -57,7 +69,8 @@ let observe (p : prog) =
         if not (Hashtbl.mem names id) then (Hashtbl.add names id (Printf.sprintf "f%d" !nfresh); incr nfresh);
         Hashtbl.find names id
       end in
-    let tl = List.map (fun ((c, k, r), cp, d, data) -> Printf.sprintf "T %d %d %d %s %s %s" c k r (name_task cp) (sname d) (hex data)) bodies in
+    let tl = List.map (fun (((c, k, r), fl), cp, d, data) ->
+      Printf.sprintf "%s %d %d %d %s %s %s" (if fl = 0 then "T" else "U") c k r (name_task cp) (sname d) (hex data)) bodies in
     let name_any id = if id < ntiles then Printf.sprintf "D%d" id else (try Hashtbl.find names id with Not_found -> "u") in
     let xl = List.filter_map (function
       | EConv (src, sty, scnt, dst, dty) ->
